@@ -19,8 +19,7 @@ def scenarios(ctx, stride_q=3, nsim_q=40):
 
 def run(ctx):
     if ctx.replay:
-        scen = [json.load(open(ctx.replay))["trace"]["scenario"]]
-        scen[0].pop("tid", None)
+        scen = ctx.replay_scenarios()
     else:
         scen = scenarios(ctx)
         for s in scen:
